@@ -60,6 +60,18 @@ var modelledFns = map[string]bool{
 	"_to_yaml/1": true, "to_yaml/1": true,
 	"intdiv/2": true,
 	"@index/1": true, "@slice/2": true, "@bytecolor/1": true,
+	// second batch (FqModel/Total2.lean, `modelled2` in Drv/C13.lean)
+	"from_hex/0": true, "to_hex/0": true, "_to_base64/1": true, "to_base64/0": true, "to_base64/1": true,
+	"_to_hash/1": true, "_to_strencoding/1": true, "_from_strencoding/1": true, "nal_unescape/0": true,
+	"_query_fromstring/0": true, "from_urlencode/0": true, "from_urlpath/0": true, "from_urlquery/0": true,
+	"to_urlquery/0": true, "to_url/0": true, "to_urlencode/0": true, "to_urlpath/0": true,
+	"from_xmlentities/0": true, "to_xmlentities/0": true,
+	"_to_csv/1": true, "to_csv/0": true, "to_csv/1": true,
+	"_stdio_read/2": true, "_stdio_write/1": true, "_stdio_info/1": true,
+	"to_md4/0": true, "to_md5/0": true, "to_sha1/0": true, "to_sha256/0": true, "to_sha512/0": true,
+	"to_sha3_224/0": true, "to_sha3_256/0": true, "to_sha3_384/0": true, "to_sha3_512/0": true,
+	"to_iso8859_1/0": true, "to_utf8/0": true, "to_utf16/0": true, "to_utf16le/0": true, "to_utf16be/0": true,
+	"from_iso8859_1/0": true, "from_utf8/0": true, "from_utf16/0": true, "from_utf16le/0": true, "from_utf16be/0": true,
 }
 
 // functions that cannot be run meaningfully even on the virtual OS (none crash; they are
@@ -447,6 +459,7 @@ func main() {
 	directOps(o, pool)
 	optsfmtOps(o, pool)
 	previewOps(o)
+	linecolOps(o)
 	writerOps(o, cfg, hlib.NewRand(cfg.Seed^0x5eed))
 
 	// the pseudo functions for the index / slice syntax on binaries
